@@ -58,16 +58,35 @@ def candidates():
         text = open(path, encoding='utf-8').read().split('\n')
         in_test = False
         for ln, line in enumerate(text):
-            if '#[cfg(test)]' in line:
-                in_test = True
+            if '#[cfg(test)]' in line or line.strip() == '#[test]':
+                in_test = True          # the crate keeps its unit tests at the end of each file
             if in_test:
                 continue
             code = line.split('//')[0] if not re.search(r'"[^"]*//', line) else line
             if not code.strip() or code.strip().startswith(('use ', '#[', '///', '//')):
                 continue
             for pat, rep in SUBS:
+                if rep in ('<=', '>=') and re.search(r'::<|<[A-Za-z_&(\']|[A-Za-z_)\]]>|->|=>', code):
+                    continue            # angle brackets of generics and arrows, not comparisons
                 for m in re.finditer(pat, code):
                     out.append((rel, ln, m.start(), m.end(), rep, line))
+    # structural mutants: swap two adjacent alternatives of an alt((..)) table, drop one alternative / one statement
+    for rel in sorted(RELEVANT):
+        text = open(os.path.join(REPO, rel), encoding='utf-8').read().split('\n')
+        in_test = False
+        row = re.compile(r'^\s*(literal\(|unary!\(|terminated\(|preceded\(|delimited\(|Test::|Action::|Token::|FormatField::|FormatSpecial::|Size::|TimeSpec::|[\'"].*=>)')
+        for ln in range(len(text) - 1):
+            line = text[ln]
+            if '#[cfg(test)]' in line or line.strip() == '#[test]':
+                in_test = True
+            if in_test:
+                continue
+            if row.match(line) and line.rstrip().endswith(',') and row.match(text[ln + 1]) and text[ln + 1].rstrip().endswith(','):
+                out.append((rel, ln, 'SWAP', None, None, line))
+            if row.match(line) and line.rstrip().endswith(','):
+                out.append((rel, ln, 'DROP', None, None, line))
+            if re.match(r'^\s*(self\.[a-z_.]+(\(|\s*[+-]?=)|[a-z_]+\.(push|insert|push_str|extend)\()', line) and line.rstrip().endswith(';'):
+                out.append((rel, ln, 'DROP', None, None, line))
     return out
 
 
@@ -92,8 +111,16 @@ def main():
             break
         path = os.path.join(REPO, rel)
         text = open(path, encoding='utf-8').read().split('\n')
-        new = line[:a] + rep + line[b:]
-        text[ln] = new
+        if a == 'SWAP':
+            new = text[ln + 1]
+            text[ln], text[ln + 1] = text[ln + 1], text[ln]
+            new = 'SWAPPED WITH NEXT: ' + new
+        elif a == 'DROP':
+            new = '(line removed)'
+            text[ln] = ''
+        else:
+            new = line[:a] + rep + line[b:]
+            text[ln] = new
         open(path, 'w', encoding='utf-8').write('\n'.join(text))
         desc = '%s:%d  %s  ->  %s' % (rel, ln + 1, line.strip()[:80], new.strip()[:80])
         try:
